@@ -1,14 +1,19 @@
 import SqlProofs.FilterSpec
 import SqlProofs.SpacesSpec
 import SqlProofs.StripwsSpec
+import SqlProofs.ReindentBreaks
+import SqlProofs.StripwsFixed
 /-!
 # C10 — requested layout normal forms are actually achieved
 
-Theorem so far: the serializer removes every trailing blank (no output line ends in an `isspace` character) — for every text, hence for the
-output of every option set.  The other normal-form clauses (no double blanks / blanks inside parentheses after strip_whitespace, blanks around
-operators, clause keywords on their own line after reindent) and the fixed-point clauses are **not** theorems: the filters are modelled and tied
-by streams, and the clauses are checked by the oracle on the real code.  Known finding KF-C10-1: `use_space_around_operators` is not a fixed point
-when an operator is followed by a line break.
+Theorems over the filter model: the serializer removes every trailing blank (for every text, hence for the output of every option set);
+`use_space_around_operators` reaches its normal form and is a fixed point; `strip_whitespace` reaches its normal form at tree level (incl. the
+two parenthesis clauses) and is a fixed point of the IdentifierList pass exactly when no comma is preceded by two whitespace tokens
+(theorem + decided counterexample: known finding KF-C10-3); with `reindent` every clause keyword that `_next_token` selects is directly preceded
+by the `nl()` token ('\n' + indentation) in every list `_process_default` handles and in the whole statement list — under the hypothesis
+that the keyword does not already follow a child ending in a line break (`noBreakBefore`; the excluded cases are witnessed on the real code by
+the oracle).  Not theorems: the lift of the reindent clause through `_process_identifierlist/_case/_parenthesis` (each inserts its own breaks
+first) and through the serializer's regex; those are checked by the oracle on the real code.
 -/
 namespace Sql.C10
 
@@ -25,5 +30,23 @@ inside a parenthesis the child after `(` and the child before `)` are not whites
 theorem strip_whitespace_normal_form : type_of% @stripws_nf := @stripws_nf
 theorem no_blank_after_open_paren : type_of% @stripwsParenthesis_after_open := @stripwsParenthesis_after_open
 theorem no_blank_before_close_paren : type_of% @stripwsParenthesis_before_close := @stripwsParenthesis_before_close
+
+/-- `reindent`: after `_split_kwds` every selected clause keyword is directly preceded by an `nl()` token -/
+theorem split_kwds_breaks_before_clause_keywords : type_of% @rSplitKwds_nl := @rSplitKwds_nl
+theorem split_kwds_breaks_or_line_end : type_of% @rSplitKwds_lineBreak := @rSplitKwds_lineBreak
+/-- … still so after the whole `_process_default` (recursion into children included), with the exact value of the break token -/
+theorem clause_keywords_start_lines : type_of% @rDefault_breaks := @rDefault_breaks
+theorem clause_keywords_start_lines_exact : type_of% @rDefault_breaks_exact := @rDefault_breaks_exact
+/-- … and for `ReindentFilter.process` on a Statement -/
+theorem reindent_statement_clause_keywords : type_of% @reindent_statement_breaks := @reindent_statement_breaks
+/-- later insertions of break tokens never separate a keyword from its break -/
+theorem breaks_survive_insertions : type_of% @selectedOK_insertAt := @selectedOK_insertAt
+/-- in `str(stmt)` the keyword's value directly follows '\n' + indentation -/
+theorem keyword_text_follows_break : type_of% @pair_text_exact := @pair_text_exact
+
+/-- `strip_whitespace`, IdentifierList pass: a fixed point iff no comma has two whitespace tokens before it (KF-C10-3 is the other case) -/
+theorem stripws_identifierlist_fixed_point : type_of% @stripwsIdentifierList_fixed := @stripwsIdentifierList_fixed
+theorem stripws_identifierlist_counterexample : type_of% @stripwsIdentifierList_not_fixed := @stripwsIdentifierList_not_fixed
+theorem stripws_default_idempotent : type_of% @stripwsDefault_idem := @stripwsDefault_idem
 
 end Sql.C10
